@@ -20,6 +20,9 @@ type Text struct {
 	// First names the kind of the first statement when the text is "a statement
 	// SQLite calls read-only, followed by a write" (used for the finding key).
 	First string `json:"first,omitempty"`
+	// Pre holds statements sent as separate elements of the same request, before
+	// SQL (so the request is the array [Pre..., SQL]).
+	Pre []string `json:"pre,omitempty"`
 }
 
 // Seed schema and data (applied through /db/execute, i.e. through the log).
@@ -269,6 +272,49 @@ func genText(r *rand.Rand, no int, attDir string) Text {
 		default:
 			t.SQL, t.Params, t.First = "SELECT count(*) FROM t1 WHERE n > ?; UPDATE t1 SET n = n + ? WHERE id = (SELECT min(id) FROM t1)", []any{2, 5}, "select"
 		}
+	}
+	return t
+}
+
+// genGuardText generates a text of the family "guard-off": a statement that tries
+// to switch off a connection-level protection against writes (PRAGMA query_only
+// off, PRAGMA writable_schema on) in one of SQLite's equivalent spellings
+// (`name = v`, `name=v`, `name(v)`, schema-qualified, any keyword case, any
+// boolean spelling, behind a comment or behind a first SELECT), alone or
+// followed by a write - in the same text or as the next statement of the same
+// request. Only the "off" direction of query_only is generated: the harness's own
+// writes share the node's read-write connection.
+func genGuardText(r *rand.Rand, no int) Text {
+	t := Text{No: no, Family: "guard-off"}
+	kw := []string{"PRAGMA", "pragma", "Pragma"}[r.IntN(3)]
+	schema := []string{"", "", "main."}[r.IntN(3)]
+	name, val := "query_only", []string{"0", "OFF", "false", "no", "FALSE", "off"}[r.IntN(6)]
+	if r.IntN(5) == 0 {
+		name, val = "writable_schema", []string{"1", "ON", "true"}[r.IntN(3)]
+	}
+	if r.IntN(3) == 0 {
+		name = strings.ToUpper(name)
+	}
+	call := fmt.Sprintf("%s %s%s(%s)", kw, schema, name, val)
+	eq := fmt.Sprintf("%s %s%s%s%s", kw, schema, name, []string{" = ", "=", " =", "= "}[r.IntN(4)], val)
+	w := writeStmt(r, no)
+	switch r.IntN(8) {
+	case 0:
+		t.SQL = call // alone: whatever it leaves behind on a pooled connection is seen by later texts
+	case 1, 2:
+		t.SQL, t.First = call+sep(r)+w, "pragma-set"
+	case 3, 4:
+		t.Family = "guard-off-then-write"
+		t.Pre, t.SQL = []string{call}, w
+		if r.IntN(3) == 0 {
+			t.Pre = []string{"SELECT 1", call}
+		}
+	case 5:
+		t.SQL, t.First = "SELECT 1"+sep(r)+eq+sep(r)+w, "select"
+	case 6:
+		t.SQL, t.First = []string{"/* c */ ", "-- c\n", "/**/"}[r.IntN(3)]+eq+sep(r)+w, "pragma-set"
+	default:
+		t.SQL, t.First = eq+sep(r)+w, "pragma-set"
 	}
 	return t
 }
